@@ -31,8 +31,12 @@ def run(chk, replay=None):
             st2 = {"depth3": st2, "depth4": st25}
         sim, st3 = vf.tlc_simulate("IqDispatchGen.tla", "IqDispatchGenSim.cfg", num=300 if quick else 20000, depth=12,
                                    seed=chk.seed, workers=2)
-        behs = vf.maximal_behaviours(tour + pend + allp + sim)
-        chk.cov["generation"] = {"tour": st1, "tour_pending_request": st1p, "all_paths": st2, "simulate": st3}
+        # random sequences in which a tracked request is always outstanding (re-issued after it completes)
+        simp, st3p = vf.tlc_simulate("IqDispatchGen.tla", "IqDispatchGenSimPend.cfg", num=200 if quick else 10000, depth=12,
+                                     seed=chk.seed, workers=2)
+        behs = vf.maximal_behaviours(tour + pend + allp + sim + simp)
+        chk.cov["generation"] = {"tour": st1, "tour_pending_request": st1p, "all_paths": st2, "simulate": st3,
+                                 "simulate_pending_request": st3p}
     vf.write_ndjson(chk.path("behaviours.ndjson"), behs)
     # 3. replay on the real client
     trace = chk.path("trace.ndjson")
@@ -45,7 +49,7 @@ def run(chk, replay=None):
     s = vf.tlc_trace("IqDispatchTrace.tla", "IqDispatchTrace.cfg", trace)
     chk.cov["traces_validated_against_impl"] = s["cases"]
     chk.cov["trace_lines"] = s["lines"]
-    chk.cov["iqs_injected"] = s["lines"] - s["cases"]
+    chk.cov["iqs_injected"] = s["lines"] - s["cases"] - s["tracked"]
     chk.cov["iq_requests"] = s["requests"]
     chk.cov["iq_responses"] = s["responses"]
     chk.cov["iq_other_type"] = s["othertype"]
